@@ -222,7 +222,7 @@ func indexContexts(n *sx, q string, seen map[string]*sx) {
 	case h == "eref" && len(n.list) == 3:
 		idx = n.list[2]
 	}
-	if idx != nil && idx.isL && idx.length() < 300 && idx.contains(q) {
+	if idx != nil && idx.isL && idx.length() < 3000 && idx.contains(q) {
 		seen[idx.String()] = idx
 	}
 	for _, c := range n.list {
@@ -284,4 +284,285 @@ func shiftedVariants(body string, q string, fresh func() string) []struct{ Var, 
 		out = append(out, struct{ Var, Body string }{kv, nb.String()})
 	}
 	return out
+}
+
+// ---------------------------------------------------------------------------------------------
+// Contextual Boolean simplification.
+//
+// Spec expressions are Go: `a && b ==> c` reaches the engine as control flow, and the merged
+// term repeats every guard in every later disjunct:
+//     (or (not A) (or (and A (not B)) (or (and (and A B) (not R)) E)))
+// which is ¬A ∨ ¬B ∨ ¬R ∨ E.  The solvers do not simplify this by themselves and every
+// quantifier instance then costs a handful of case splits.  ctxSimplify rewrites a formula
+// into an equivalent one using what the enclosing and/or/=>/ite structure already decides
+// (later disjuncts are read assuming the earlier ones false, later conjuncts assuming the
+// earlier ones true).  Only equivalences are used, so the polarity of the position is irrelevant.
+
+type simpCtx struct {
+	facts map[string]bool
+	memo  map[*sx]string
+}
+
+func (c *simpCtx) key(n *sx) string {
+	if !n.isL {
+		return n.atom
+	}
+	if s, ok := c.memo[n]; ok {
+		return s
+	}
+	s := n.String()
+	c.memo[n] = s
+	return s
+}
+
+var sxTrue, sxFalse = &sx{atom: "true"}, &sx{atom: "false"}
+
+func isTrueSx(n *sx) bool  { return !n.isL && n.atom == "true" }
+func isFalseSx(n *sx) bool { return !n.isL && n.atom == "false" }
+
+func (c *simpCtx) clone() *simpCtx {
+	f := make(map[string]bool, len(c.facts)+4)
+	for k, v := range c.facts {
+		f[k] = v
+	}
+	return &simpCtx{facts: f, memo: c.memo}
+}
+
+// assume records that n has truth value val.
+func (c *simpCtx) assume(n *sx, val bool) {
+	if !n.isL {
+		if n.atom != "true" && n.atom != "false" {
+			c.facts[n.atom] = val
+		}
+		return
+	}
+	switch n.head() {
+	case "not":
+		if len(n.list) == 2 {
+			c.assume(n.list[1], !val)
+			return
+		}
+	case "and":
+		if val {
+			for _, ch := range n.list[1:] {
+				c.assume(ch, true)
+			}
+		} else {
+			// unit: all conjuncts but one known true
+			var open *sx
+			cnt := 0
+			for _, ch := range n.list[1:] {
+				if v, ok := c.lookup(ch); ok && v {
+					continue
+				}
+				open = ch
+				cnt++
+			}
+			if cnt == 1 {
+				c.assume(open, false)
+			}
+		}
+	case "or":
+		if !val {
+			for _, ch := range n.list[1:] {
+				c.assume(ch, false)
+			}
+		} else {
+			var open *sx
+			cnt := 0
+			for _, ch := range n.list[1:] {
+				if v, ok := c.lookup(ch); ok && !v {
+					continue
+				}
+				open = ch
+				cnt++
+			}
+			if cnt == 1 {
+				c.assume(open, true)
+			}
+		}
+	}
+	c.facts[c.key(n)] = val
+}
+
+func (c *simpCtx) lookup(n *sx) (bool, bool) {
+	if isTrueSx(n) {
+		return true, true
+	}
+	if isFalseSx(n) {
+		return false, true
+	}
+	if n.isL && n.head() == "not" && len(n.list) == 2 {
+		v, ok := c.lookup(n.list[1])
+		return !v, ok
+	}
+	v, ok := c.facts[c.key(n)]
+	return v, ok
+}
+
+func mkNot(n *sx) *sx {
+	if isTrueSx(n) {
+		return sxFalse
+	}
+	if isFalseSx(n) {
+		return sxTrue
+	}
+	if n.isL && n.head() == "not" && len(n.list) == 2 {
+		return n.list[1]
+	}
+	return &sx{isL: true, list: []*sx{{atom: "not"}, n}}
+}
+
+func (c *simpCtx) simp(n *sx) *sx {
+	if v, ok := c.lookup(n); ok && (n.isL || (n.atom != "true" && n.atom != "false")) {
+		if v {
+			return sxTrue
+		}
+		return sxFalse
+	}
+	if !n.isL || len(n.list) == 0 {
+		return n
+	}
+	switch n.head() {
+	case "not":
+		if len(n.list) == 2 {
+			return mkNot(c.simp(n.list[1]))
+		}
+	case "and", "or":
+		isAnd := n.head() == "and"
+		loc := c.clone()
+		var out []*sx
+		for _, ch := range n.list[1:] {
+			s := loc.simp(ch)
+			if isAnd {
+				if isFalseSx(s) {
+					return sxFalse
+				}
+				if isTrueSx(s) {
+					continue
+				}
+				// flatten
+				if s.isL && s.head() == "and" {
+					out = append(out, s.list[1:]...)
+				} else {
+					out = append(out, s)
+				}
+				loc.assume(s, true)
+			} else {
+				if isTrueSx(s) {
+					return sxTrue
+				}
+				if isFalseSx(s) {
+					continue
+				}
+				if s.isL && s.head() == "or" {
+					out = append(out, s.list[1:]...)
+				} else {
+					out = append(out, s)
+				}
+				loc.assume(s, false)
+			}
+		}
+		if len(out) == 0 {
+			if isAnd {
+				return sxTrue
+			}
+			return sxFalse
+		}
+		if len(out) == 1 {
+			return out[0]
+		}
+		return &sx{isL: true, list: append([]*sx{n.list[0]}, out...)}
+	case "=>":
+		if len(n.list) >= 3 {
+			loc := c.clone()
+			var ants []*sx
+			for _, a := range n.list[1 : len(n.list)-1] {
+				s := loc.simp(a)
+				if isFalseSx(s) {
+					return sxTrue
+				}
+				if isTrueSx(s) {
+					continue
+				}
+				ants = append(ants, s)
+				loc.assume(s, true)
+			}
+			cons := loc.simp(n.list[len(n.list)-1])
+			if isTrueSx(cons) {
+				return sxTrue
+			}
+			if len(ants) == 0 {
+				return cons
+			}
+			if isFalseSx(cons) && len(ants) == 1 {
+				return mkNot(ants[0])
+			}
+			return &sx{isL: true, list: append(append([]*sx{n.list[0]}, ants...), cons)}
+		}
+	case "ite":
+		if len(n.list) == 4 {
+			cond := c.simp(n.list[1])
+			if isTrueSx(cond) {
+				return c.simp(n.list[2])
+			}
+			if isFalseSx(cond) {
+				return c.simp(n.list[3])
+			}
+			lt := c.clone()
+			lt.assume(cond, true)
+			lf := c.clone()
+			lf.assume(cond, false)
+			return &sx{isL: true, list: []*sx{n.list[0], cond, lt.simp(n.list[2]), lf.simp(n.list[3])}}
+		}
+	case "forall", "exists":
+		if len(n.list) == 3 {
+			b := c.simp(n.list[2])
+			if isTrueSx(b) || isFalseSx(b) {
+				return b // Int/Ref/... domains are non-empty
+			}
+			return &sx{isL: true, list: []*sx{n.list[0], n.list[1], b}}
+		}
+	case "!":
+		if len(n.list) >= 2 {
+			b := c.simp(n.list[1])
+			if isTrueSx(b) || isFalseSx(b) {
+				return b
+			}
+			return &sx{isL: true, list: append([]*sx{n.list[0], b}, n.list[2:]...)}
+		}
+	case "let":
+		return n // bound names: leave alone
+	}
+	// any other application: simplify Boolean sub-terms (ite conditions, nested formulas)
+	changed := false
+	out := make([]*sx, len(n.list))
+	out[0] = n.list[0]
+	for i, ch := range n.list[1:] {
+		s := ch
+		if ch.isL {
+			s = c.simp(ch)
+		}
+		if s != ch {
+			changed = true
+		}
+		out[i+1] = s
+	}
+	if !changed {
+		return n
+	}
+	return &sx{isL: true, list: out}
+}
+
+// ctxSimplify simplifies the formula text s (an S-expression of sort Bool).
+func ctxSimplify(s string) string {
+	if len(s) < 40 || (!strings.Contains(s, "(or ") && !strings.Contains(s, "(and ") && !strings.Contains(s, "(=> ")) {
+		return s
+	}
+	tree := parseSx(s)
+	if tree == nil {
+		return s
+	}
+	c := &simpCtx{facts: map[string]bool{}, memo: map[*sx]string{}}
+	return c.simp(tree).String()
 }
